@@ -247,7 +247,43 @@ def dropped_results_scenario():
     if built[1]['also'].name != 'other':
       viols.append(dict(what='wrong object for the second shared Buildable', shape=[], same=False,
                         sig='dropped', store=str(first_consumer_position), op='build'))
-  return n, n, viols, [dict(scenario='built object dropped by its first consumer')]
+  # stand-alone TaggedValues (inside containers / at the root) whose value is shared with other places
+  from layerb import pool
+  for where in ('list', 'dict', 'tuple', 'root-list'):
+    n += 1
+    shared = fdl.Config(_Res, 'shared')
+    lst = [1, 2]
+    tv, tl = pool.TagA.new(shared), pool.TagB.new(lst)
+    holder = {'list': [tv, tl], 'dict': {'k': tv, 'l': tl}, 'tuple': (tv, [tl])}.get(where, [tv, tl])
+    if where == 'root-list':
+      cfg = [holder, fdl.Config(_combine, shared, lst)]
+    else:
+      cfg = fdl.Config(_combine, holder, shared, lst, fdl.Config(_measure, shared))
+    _Res.made.clear()
+    built = fdl.build(cfg)
+    if _Res.made != ['shared']:
+      viols.append(dict(what=f'TaggedValue in a {where}: the shared Buildable it holds was invoked '
+                             f'{len(_Res.made)} times', shape=[], same=False, sig='dropped', store='tv-' + where,
+                        op='build'))
+      continue
+    flat = []
+    def walk(x):
+      if isinstance(x, _Res) or (isinstance(x, list) and x == [1, 2]):
+        flat.append(x)
+      elif isinstance(x, (list, tuple)):
+        for y in x:
+          walk(y)
+      elif isinstance(x, dict):
+        for y in x.values():
+          walk(y)
+    walk(built)
+    res = [x for x in flat if isinstance(x, _Res)]
+    lists = [x for x in flat if isinstance(x, list)]
+    if len({id(x) for x in res}) != 1 or len({id(x) for x in lists}) != 1:
+      viols.append(dict(what=f'TaggedValue in a {where}: references to one Buildable / list received '
+                             f'different built objects', shape=[], same=False, sig='dropped',
+                        store='tv-' + where, op='build'))
+  return n, n, viols, [dict(scenario='built object dropped by its first consumer; shared values of TaggedValues')]
 
 
 def partial_nodes_scenario():
